@@ -348,9 +348,8 @@ Section TA.
   Qed.
 
   (* ---------------------------------------------------------------- one level of nesting *)
-  Definition good (k : nat) (handed ctx : option str) (over : option qname) (x : value) : bool :=
-    typed_value D k x && cache_consistent D pns k handed over x
-    && inherit_consistent D k handed ctx over x && token_lists_ok D k x.
+  Definition good (k : nat) (ctx : option str) (x : value) : bool :=
+    typed_value D k x && cache_consistent D pns k ctx x.
 
   Definition renders (fuel k : nat) (ctx : option str) (over : option qname) (fnil : bool) (x : value) : Prop :=
     exists evs, run' fuel (CDataclass x over fnil None) = Ok evs
@@ -358,16 +357,16 @@ Section TA.
                 /\ closed evs = true /\ starts_content evs = true /\ evs <> [].
 
   Section Level.
-    Variables (k : nat) (handed cns : option str).
+    Variables (k : nat) (cns : option str).
     Hypothesis IHobj : forall fuel c' fs' fq fnil,
-        (5 * k <= fuel)%nat -> fq <> [] -> good k handed cns (Some fq) (VObj c' fs') = true ->
+        (5 * k <= fuel)%nat -> fq <> [] -> good k cns (VObj c' fs') = true ->
         renders fuel k cns (Some fq) fnil (VObj c' fs').
 
     (* an item of an Element field: a primitive or a nested object *)
     Lemma item_ok cd f var x fuel :
       wf_field D f = true -> fd_kind f = KElement -> var_facts f cns var -> decl_ns cns (cd, f) = cns ->
       typed_item k f x = true ->
-      (forall c' fs', x = VObj c' fs' -> good k handed cns (Some (field_qname f cns)) x = true) ->
+      (forall c' fs', x = VObj c' fs' -> good k cns x = true) ->
       (5 * k + 2 <= fuel)%nat ->
       exists evs, run' fuel (CAnyType x var) = Ok evs
                   /\ norm_nil evs = spec_item cv D (spec_object cv D ign k cns) cns (cd, f) x
@@ -477,7 +476,7 @@ Section TA.
       wf_field D f = true -> fd_kind f = KElement -> fd_tokens f = false -> var_facts f cns var ->
       decl_ns cns (cd, f) = cns ->
       forallb (typed_item k f) l = true ->
-      (forall c' fs', In (VObj c' fs') l -> good k handed cns (Some (field_qname f cns)) (VObj c' fs') = true) ->
+      (forall c' fs', In (VObj c' fs') l -> good k cns (VObj c' fs') = true) ->
       (5 * k + 3 <= F)%nat ->
       exists evs, concatM (fun x => run' F (CValue x var)) l = Ok evs
                   /\ norm_nil evs = flat_map (spec_item cv D (spec_object cv D ign k cns) cns (cd, f)) l
@@ -532,14 +531,13 @@ Section TA.
       typed_field k f (lookup fs (fd_name f)) = true ->
       (forall c' fs', (lookup fs (fd_name f) = VObj c' fs'
                        \/ exists t l, lookup fs (fd_name f) = VList t l /\ In (VObj c' fs') l) ->
-                      good k handed cns (Some (field_qname f cns)) (VObj c' fs') = true) ->
-      (forall t, lookup fs (fd_name f) = VList t [] -> fd_tokens f && fd_list f && fd_nillable f = false) ->
+                      good k cns (VObj c' fs') = true) ->
       (5 * k + 4 <= fuel)%nat ->
       exists evs, concatM (step fuel) (emit var (lookup fs (fd_name f))) = Ok evs
                   /\ norm_nil evs = spec_plain cv D (spec_object cv D ign k cns) cns fs (cd, f)
                   /\ nice evs.
     Proof.
-      intros Hwff Hkind VF Hdecl Ht Hgood Htl HF.
+      intros Hwff Hkind VF Hdecl Ht Hgood HF.
       pose proof (wf_field_inv D f Hwff) as W.
       unfold spec_plain. cbn [snd]. set (X := lookup fs (fd_name f)) in *.
       destruct fuel as [|F]; [lia|].
@@ -591,7 +589,7 @@ Section TA.
       { intros H. unfold wrapper_qname. rewrite (no_wrapper f Hwff); [reflexivity|]. destruct H; auto. }
       (* a scalar item: through CAnyType *)
       assert (Hscalar : forall x, typed_item k f x = true -> fd_tokens f = false -> fd_list f = false ->
-                (forall c' fs', x = VObj c' fs' -> good k handed cns (Some (field_qname f cns)) x = true) ->
+                (forall c' fs', x = VObj c' fs' -> good k cns x = true) ->
                 exists evs, concatM (step (S F)) [(var, x)] = Ok evs
                             /\ norm_nil evs = with_wrapper (wrapper_qname f cns)
                                   (spec_item cv D (spec_object cv D ign k cns) cns (cd, f) x ++ [])
@@ -629,12 +627,12 @@ Section TA.
           * (* a list of token lists *)
             cbn [spec_occurrences]. rewrite Etok, Elist.
             destruct l as [|y l'].
-            { pose proof (Htl t eq_refl) as Hn. cbn in Hn.
-              exists []. split; [|split; [reflexivity|split; reflexivity]].
+            { exists []. split; [|split; [reflexivity|split; reflexivity]].
               rewrite (step_single var (VList t []) (S F) []).
               - unfold wrap_events. rewrite (vf_wrapper_none f _ _ VF); [reflexivity|].
                 apply no_wrapper; [exact Hwff|auto].
-              - rewrite Hct. unfold convert_tokens. cbn [py_truthy nonempty orb]. rewrite (vf_nillable f _ _ VF), Hn. reflexivity. }
+              - rewrite Hct. unfold convert_tokens. cbn [py_truthy nonempty orb]. rewrite (vf_list f _ _ VF), Elist.
+                cbn [negb]. rewrite andb_false_r. reflexivity. }
             assert (Hall : forall x, In x (y :: l') -> exists t' l2, x = VList t' l2 /\ forallb (typed_item k f) l2 = true).
             { intros x Hin. rewrite forallb_forall in Ht. specialize (Ht x Hin). unfold typed_tokens in Ht.
               destruct x; try discriminate Ht. eauto. }
@@ -666,7 +664,7 @@ Section TA.
             { destruct (fd_nillable f) eqn:Enil.
               - exists evs. rewrite (step_single var (VList t []) (S F) evs).
                 + rewrite Hnw. cbn [flat_map]. rewrite app_nil_r. unfold spec_item. cbn [snd]. rewrite Hk, Hdecl. repeat split; assumption.
-                + rewrite Hct. unfold convert_tokens. cbn [py_truthy nonempty orb]. rewrite (vf_nillable f _ _ VF), Enil. exact H1.
+                + rewrite Hct. unfold convert_tokens. cbn [py_truthy nonempty orb]. rewrite (vf_nillable f _ _ VF), Enil, (vf_list f _ _ VF), Elist. exact H1.
               - exists []. split; [|split; [reflexivity|split; reflexivity]].
                 rewrite (step_single var (VList t []) (S F) []); [rewrite Hnw; reflexivity|].
                 rewrite Hct. unfold convert_tokens. cbn [py_truthy nonempty orb]. rewrite (vf_nillable f _ _ VF), Enil. reflexivity. }
@@ -703,48 +701,16 @@ Section TA.
     match X with VList _ l => forallb P l | x => P x end.
   Definition on_obj (P : value -> bool) (x : value) : bool := match x with VObj _ _ => P x | _ => true end.
 
-  Lemma cache_inv k c fs cd handed over :
+  Lemma cache_inv k c fs cd ctx :
     find_cdesc D c = Some cd ->
-    cache_consistent D pns (S k) handed over (VObj c fs) = true ->
-    (match cd_meta_ns cd with Some _ => true | None => ostr_eqb (some_ns (pns c)) handed end) = true
+    cache_consistent D pns (S k) ctx (VObj c fs) = true ->
+    (match cd_meta_ns cd with Some _ => true | None => ostr_eqb (some_ns (pns c)) ctx end) = true
     /\ forall f, In f (cd_fields cd) ->
-          sub_all (on_obj (cache_consistent D pns k
-                             (ns_of (match over with Some q => q | None => clark (class_ns cd handed) (class_local cd) end))
-                             (Some (field_qname f (class_ns cd handed)))))
-                  (lookup fs (fd_name f)) = true.
+          sub_all (on_obj (cache_consistent D pns k (class_ns cd ctx))) (lookup fs (fd_name f)) = true.
   Proof.
     intros Hc H. cbn [cache_consistent] in H. rewrite Hc in H. apply andb_true_iff in H as [H1 H2].
     split; [exact H1|]. intros f Hin. rewrite forallb_forall in H2. specialize (H2 f Hin).
     unfold sub_all, on_obj. destruct (lookup fs (fd_name f)); exact H2.
-  Qed.
-
-  Lemma inherit_inv k c fs cd handed ctx over :
-    find_cdesc D c = Some cd ->
-    inherit_consistent D (S k) handed ctx over (VObj c fs) = true ->
-    (match cd_meta_ns cd with Some _ => true | None => ostr_eqb handed ctx end) = true
-    /\ forall f, In f (cd_fields cd) ->
-          sub_all (on_obj (inherit_consistent D k
-                             (ns_of (match over with Some q => q | None => clark (class_ns cd ctx) (class_local cd) end))
-                             (class_ns cd ctx) (Some (field_qname f (class_ns cd ctx)))))
-                  (lookup fs (fd_name f)) = true.
-  Proof.
-    intros Hc H. cbn [inherit_consistent] in H. rewrite Hc in H. apply andb_true_iff in H as [H1 H2].
-    split; [exact H1|]. intros f Hin. rewrite forallb_forall in H2. specialize (H2 f Hin).
-    unfold sub_all, on_obj. destruct (lookup fs (fd_name f)); exact H2.
-  Qed.
-
-  Lemma tokens_inv k c fs cd :
-    find_cdesc D c = Some cd ->
-    token_lists_ok D (S k) (VObj c fs) = true ->
-    forall f, In f (cd_fields cd) ->
-      (forall t, lookup fs (fd_name f) = VList t [] -> fd_tokens f && fd_list f && fd_nillable f = false)
-      /\ sub_all (on_obj (token_lists_ok D k)) (lookup fs (fd_name f)) = true.
-  Proof.
-    intros Hc H f Hin. cbn [token_lists_ok] in H. rewrite Hc in H. rewrite forallb_forall in H. specialize (H f Hin).
-    unfold sub_all, on_obj. destruct (lookup fs (fd_name f)) as [| |t l| | | |]; try (split; [intros; discriminate|exact H]).
-    destruct l as [|x l].
-    - split; [intros _ _; apply negb_true_iff; exact H|reflexivity].
-    - split; [intros; discriminate|exact H].
   Qed.
 
   (* ---------------------------------------------------------------- all fields of one object *)
@@ -801,9 +767,9 @@ Section TA.
     rewrite IH; [reflexivity| |cbn in Hf; lia]. intros w Hw. apply H. right. exact Hw.
   Qed.
 
-  Lemma content_all k handed cns
+  Lemma content_all k cns
         (IHobj : forall fuel c' fs' fq fnil,
-            (5 * k <= fuel)%nat -> fq <> [] -> good k handed cns (Some fq) (VObj c' fs') = true ->
+            (5 * k <= fuel)%nat -> fq <> [] -> good k cns (VObj c' fs') = true ->
             renders fuel k cns (Some fq) fnil (VObj c' fs'))
         fs cd fl vars F :
     In cd (md_classes D) -> oplain (class_P cd) -> some_ns (class_P cd) = cns ->
@@ -812,8 +778,7 @@ Section TA.
        In f (cd_fields cd) /\ typed_field k f (lookup fs (fd_name f)) = true
        /\ (forall c' fs', (lookup fs (fd_name f) = VObj c' fs'
                             \/ exists t l, lookup fs (fd_name f) = VList t l /\ In (VObj c' fs') l) ->
-                           good k handed cns (Some (field_qname f cns)) (VObj c' fs') = true)
-       /\ (forall t, lookup fs (fd_name f) = VList t [] -> fd_tokens f && fd_list f && fd_nillable f = false)) ->
+                           good k cns (VObj c' fs') = true)) ->
     Forall2 (var_of cd) fl vars -> (5 * k + 4 <= F)%nat ->
     exists evs,
       concatM (step F) (flat_map (fun var => emit var (lookup fs (v_name var)))
@@ -824,7 +789,7 @@ Section TA.
   Proof.
     intros Hcd HP Hcns Hdecl Hf HR HF. induction HR as [|f var fl' vars' Hv _ IH].
     - exists []. repeat split; reflexivity.
-    - destruct (Hf f (or_introl eq_refl)) as [Hin [Ht [Hg Htl]]].
+    - destruct (Hf f (or_introl eq_refl)) as [Hin [Ht Hg]].
       pose proof (wfc_fields D cd (wf_class_of cd Hcd) f Hin) as Hwff.
       destruct Hv as [i ->].
       pose proof (build_var_facts D i (class_P cd) f Hwff HP) as VF. rewrite Hcns in VF.
@@ -832,11 +797,11 @@ Section TA.
       cbn [filter]. unfold v_is at 1. rewrite (vf_kind f _ _ VF).
       destruct (wff_kind D f (wf_field_inv D f Hwff)) as [Hk|[Hk|Hk]]; rewrite Hk; cbn [negb is_content_kind map flat_map].
       + (* Text *)
-        destruct (field_ok k handed cns IHobj cd f _ fs F Hwff (or_intror Hk) VF (Hdecl f) Ht Hg Htl HF) as [evs1 [H11 [H12 H13]]].
+        destruct (field_ok k cns IHobj cd f _ fs F Hwff (or_intror Hk) VF (Hdecl f) Ht Hg HF) as [evs1 [H11 [H12 H13]]].
         rewrite (vf_name f _ _ VF). exists (evs1 ++ evs2). split; [apply concatM_app; assumption|]. split.
         * rewrite norm_nil_app by (apply H13). rewrite H12, H22. reflexivity.
         * apply nice_app; assumption.
-      + destruct (field_ok k handed cns IHobj cd f _ fs F Hwff (or_introl Hk) VF (Hdecl f) Ht Hg Htl HF) as [evs1 [H11 [H12 H13]]].
+      + destruct (field_ok k cns IHobj cd f _ fs F Hwff (or_introl Hk) VF (Hdecl f) Ht Hg HF) as [evs1 [H11 [H12 H13]]].
         rewrite (vf_name f _ _ VF). exists (evs1 ++ evs2). split; [apply concatM_app; assumption|]. split.
         * rewrite norm_nil_app by (apply H13). rewrite H12, H22. reflexivity.
         * apply nice_app; assumption.
@@ -876,17 +841,16 @@ Section TA.
     destruct (IH Hin) as [x [Hx HR]]. exists x. split; [right; exact Hx|exact HR].
   Qed.
 
-  Lemma oplain_class_P cd c ctx handed :
+  Lemma oplain_class_P cd c ctx :
     wf_class_facts D cd -> cd_id cd = c -> oplain ctx ->
-    (match cd_meta_ns cd with Some _ => true | None => ostr_eqb (some_ns (pns c)) handed end) = true ->
-    (match cd_meta_ns cd with Some _ => true | None => ostr_eqb handed ctx end) = true ->
-    oplain (class_P cd) /\ some_ns (class_P cd) = class_ns cd ctx /\ class_ns cd handed = class_ns cd ctx.
+    (match cd_meta_ns cd with Some _ => true | None => ostr_eqb (some_ns (pns c)) ctx end) = true ->
+    oplain (class_P cd) /\ some_ns (class_P cd) = class_ns cd ctx.
   Proof.
-    intros W Hid Hctx H1 H2. unfold class_P, class_namespace, class_ns. rewrite Hid.
+    intros W Hid Hctx H1. unfold class_P, class_namespace, class_ns. rewrite Hid.
     pose proof (wfc_meta_ns D cd W) as Hm. destruct (cd_meta_ns cd) as [n|].
-    - repeat split. exact Hm.
-    - apply (proj1 (opt_eqb_spec str_eqb str_eqb_eq _ _)) in H1. apply (proj1 (opt_eqb_spec str_eqb str_eqb_eq _ _)) in H2.
-      subst handed. repeat split; try assumption. rewrite <- H2 in Hctx.
+    - split; [exact Hm|reflexivity].
+    - apply (proj1 (opt_eqb_spec str_eqb str_eqb_eq _ _)) in H1.
+      split; [|exact H1]. rewrite <- H1 in Hctx.
       destruct (pns c) as [[|x r]|]; try exact I; [reflexivity|exact Hctx].
   Qed.
 
@@ -909,21 +873,18 @@ Section TA.
     pose proof (H f Hf Hk) as Hr. unfold reserved_attr in Hr. apply orb_false_iff in Hr as [Hr _]. rewrite Hr. reflexivity.
   Qed.
 
-  Lemma run_object : forall k fuel c fs handed ctx over fnil,
+  Lemma run_object : forall k fuel c fs ctx over fnil,
       (5 * k <= fuel)%nat -> (forall q, over = Some q -> q <> []) -> oplain ctx ->
-      good k handed ctx over (VObj c fs) = true ->
+      good k ctx (VObj c fs) = true ->
       renders fuel k ctx over fnil (VObj c fs).
   Proof.
-    induction k as [|k IH]; intros fuel c fs handed ctx over fnil HF Hover Hctx Hg; unfold good in Hg;
-      repeat (apply andb_true_iff in Hg; destruct Hg as [Hg ?]); [discriminate Hg|].
-    rename Hg into Htyp. rename H1 into Hcache. rename H0 into Hinh. rename H into Htok.
+    induction k as [|k IH]; intros fuel c fs ctx over fnil HF Hover Hctx Hg; unfold good in Hg;
+      apply andb_true_iff in Hg as [Htyp Hcache]; [discriminate Htyp|].
     destruct (typed_value_inv k c fs Htyp) as [cd [Hfind [Hnames Htyped]]].
     destruct (find_cdesc_in D c cd Hfind) as [Hcd Hid].
     pose proof (wf_class_of cd Hcd) as W.
-    destruct (cache_inv k c fs cd handed over Hfind Hcache) as [Hc1 Hc2].
-    destruct (inherit_inv k c fs cd handed ctx over Hfind Hinh) as [Hi1 Hi2].
-    pose proof (tokens_inv k c fs cd Hfind Htok) as Ht2.
-    destruct (oplain_class_P cd c ctx handed W Hid Hctx Hc1 Hi1) as [HoP [HP Hch]].
+    destruct (cache_inv k c fs cd ctx Hfind Hcache) as [Hc1 Hc2].
+    destruct (oplain_class_P cd c ctx W Hid Hctx Hc1) as [HoP HP].
     set (cns := class_ns cd ctx) in *.
     assert (Hocns : oplain cns).
     { unfold cns, class_ns. pose proof (wfc_meta_ns D cd W) as Hm. destruct (cd_meta_ns cd) as [[|x r]|]; try exact I; [exact Hm|exact Hctx]. }
@@ -947,24 +908,19 @@ Section TA.
        In f (cd_fields cd) /\ typed_field k f (lookup fs (fd_name f)) = true
        /\ (forall c' fs', (lookup fs (fd_name f) = VObj c' fs'
                             \/ exists t l, lookup fs (fd_name f) = VList t l /\ In (VObj c' fs') l) ->
-                           good k (ns_of q) cns (Some (field_qname f cns)) (VObj c' fs') = true)
-       /\ (forall t, lookup fs (fd_name f) = VList t [] -> fd_tokens f && fd_list f && fd_nillable f = false)).
-    { intros f Hin. split; [exact Hin|]. split; [apply Htyped; exact Hin|]. split; [|apply (Ht2 f Hin)].
-      intros c' fs' Hocc. unfold good, q.
-      pose proof (sub_all_occ _ _ c' fs' (Hc2 f Hin) Hocc) as Hx1. rewrite Hch in Hx1.
-      pose proof (sub_all_occ _ _ c' fs' (Hi2 f Hin) Hocc) as Hx2.
-      apply andb_true_iff; split; [apply andb_true_iff; split; [apply andb_true_iff; split|]|].
+                           good k cns (VObj c' fs') = true)).
+    { intros f Hin. split; [exact Hin|]. split; [apply Htyped; exact Hin|].
+      intros c' fs' Hocc. unfold good.
+      apply andb_true_iff; split.
       - apply (typed_occ k f _ c' fs' (Htyped f Hin) Hocc).
-      - exact Hx1.
-      - exact Hx2.
-      - apply (sub_all_occ _ _ c' fs' (proj2 (Ht2 f Hin)) Hocc). }
+      - apply (sub_all_occ _ _ c' fs' (Hc2 f Hin) Hocc). }
     assert (IHobj : forall fuel' c' fs' fq fnil',
-               (5 * k <= fuel')%nat -> fq <> [] -> good k (ns_of q) cns (Some fq) (VObj c' fs') = true ->
+               (5 * k <= fuel')%nat -> fq <> [] -> good k cns (VObj c' fs') = true ->
                renders fuel' k cns (Some fq) fnil' (VObj c' fs')).
-    { intros fuel' c' fs' fq fnil' HF' Hfq Hg'. apply IH with (handed := ns_of q); try assumption.
+    { intros fuel' c' fs' fq fnil' HF' Hfq Hg'. apply IH; try assumption.
       intros q0 E. injection E as <-. exact Hfq. }
     destruct fuel as [|F]; [lia|].
-    destruct (content_all k (ns_of q) cns IHobj fs cd (cd_fields cd) (class_vars cd) F Hcd HoP HP Hdecl Hfields HR)
+    destruct (content_all k cns IHobj fs cd (cd_fields cd) (class_vars cd) F Hcd HoP HP Hdecl Hfields HR)
       as [body [Hb1 [Hb2 [Hb3 Hb4]]]]; [lia|].
     (* run *)
     unfold renders. cbn [run]. rewrite Hm.
@@ -1027,19 +983,17 @@ Section TA.
   (* ---------------------------------------------------------------- the whole document *)
   Theorem generate_matches_spec o :
     typed_value D (S (sdepth o)) o = true ->
-    cache_consistent D pns (S (sdepth o)) None None o = true ->
-    inherit_consistent D (S (sdepth o)) None None None o = true ->
-    token_lists_ok D (S (sdepth o)) o = true ->
+    cache_consistent D pns (S (sdepth o)) None o = true ->
     (sdepth o <= vdepth o)%nat ->
     exists evs, generate ign cv u o = Ok evs /\ norm_nil evs = spec_events cv D ign o.
   Proof.
-    intros H1 H2 H3 H4 Hd.
+    intros H1 H2 Hd.
     destruct o as [| | |c fs| | |]; try discriminate H1.
-    destruct (run_object (S (sdepth (VObj c fs))) (gen_fuel (VObj c fs)) c fs None None None false) as [evs [E1 [E2 _]]].
+    destruct (run_object (S (sdepth (VObj c fs))) (gen_fuel (VObj c fs)) c fs None None false) as [evs [E1 [E2 _]]].
     - unfold gen_fuel. lia.
     - intros q E. discriminate E.
     - exact I.
-    - unfold good. apply andb_true_iff; split; [apply andb_true_iff; split; [apply andb_true_iff; split|]|]; assumption.
+    - unfold good. apply andb_true_iff; split; assumption.
     - exists evs. split; [exact E1|exact E2].
   Qed.
 
